@@ -85,43 +85,35 @@ pub(super) enum ReceiveStreamState {
 }
 
 /// Keeps track of any missing data in the `Stopping` state
+///
+/// The peer does not retransmit data which has been acknowledged, and it ignores the
+/// STOP_SENDING frame once all of its data has been acknowledged. Data arriving out of order -
+/// before or after the application stopped the stream - therefore needs to be remembered,
+/// otherwise the stream never learns that it has received everything and is never released.
+/// The receive buffer keeps doing that job; the data itself is dropped as soon as it is
+/// contiguous.
 #[derive(PartialEq, Debug, Clone)]
-pub(super) struct MissingData {
-    start: u64,
-    end: u64,
-}
+pub(super) struct MissingData {}
 
 impl MissingData {
-    fn new(start: u64) -> Self {
-        Self {
-            start,
-            end: u64::MAX,
-        }
+    fn new() -> Self {
+        Self {}
     }
 
-    fn on_data(&mut self, frame: &StreamRef) -> Poll<()> {
-        // We could track if we have any pending gaps and continue to send STOP_SENDING but
-        // that would require keeping the receive buffer around, which isn't really useful
-        // since the application has already closed the stream.
-        //
-        // Instead, we just use a simple range
+    fn on_data(&mut self, frame: &StreamRef, receive_buffer: &mut Reassembler) -> Poll<()> {
+        // Inconsistencies (e.g. a changed final size) are not reported for a stream which is
+        // being stopped, as before.
+        let _ = if frame.is_fin {
+            receive_buffer.write_at_fin(frame.offset, frame.data)
+        } else {
+            receive_buffer.write_at(frame.offset, frame.data)
+        };
 
-        let frame_start = *frame.offset;
-        let frame_end = *(frame.offset + frame.data.len());
-        let frame_range = frame_start..frame_end;
-
-        // update the start if it overlaps the offset of the frame
-        if frame_range.contains(&self.start) {
-            self.start = frame_end;
-        }
-
-        // update the end if this is the last frame or if it contains the current end
-        if frame.is_fin || frame_range.contains(&self.end) {
-            self.end = self.end.min(frame_start);
-        }
+        // the application is not going to read the data
+        for _ in receive_buffer.drain() {}
 
         // return if we've received everything
-        if self.start >= self.end {
+        if receive_buffer.is_writing_complete() {
             Poll::Ready(())
         } else {
             Poll::Pending
@@ -425,7 +417,10 @@ impl ReceiveStream {
                     .acquire_window_up_to(data_end, frame.tag().into())?;
                 self.flow_controller.release_outstanding_window();
 
-                if missing_data.on_data(frame).is_ready() {
+                if missing_data
+                    .on_data(frame, &mut self.receive_buffer)
+                    .is_ready()
+                {
                     self.stop_sending_sync.stop_sync();
                     self.final_state_observed = true;
                 }
@@ -804,8 +799,7 @@ impl ReceiveStream {
                 _ => {
                     self.stop_sending_sync.request_delivery(error_code);
 
-                    let received_len = self.receive_buffer.total_received_len();
-                    let missing_data = MissingData::new(received_len);
+                    let missing_data = MissingData::new();
                     // transition to the Stopping state so we can start shutting down
                     self.state = ReceiveStreamState::Stopping {
                         error,
@@ -817,9 +811,10 @@ impl ReceiveStream {
             // STOP_SENDING cannot be flushed so it naturally operates in detached mode
             self.detach();
 
-            // We clear the receive buffer, to free up any buffer
-            // space which had been allocated but not used
-            self.receive_buffer.reset();
+            // We drop the data which could have been read, to free up its buffer space. Chunks
+            // which arrived out of order stay until the gap in front of them is filled, so
+            // that the stream is able to tell when it has received everything.
+            for _ in self.receive_buffer.drain() {}
 
             // The discarded data will never be consumed by the application. Stop advertising
             // stream credits and hand the connection credits held by the stream back, so
